@@ -77,7 +77,19 @@ def run_row(row):
     out = []
     t.add_output_callbacks(out.append)
     t0 = time.time()
-    t.execute()
+    # linger: the phase thread's finish hook ("called once _thread_proc has finished") is slow
+    from openhtf.core import phase_executor as pe
+    orig_fin = pe.PhaseExecutorThread._thread_finished
+
+    def slow_finished(self):
+      if self._phase_desc.name == 'p' and row.get('L'):
+        time.sleep(row['L'] / 2.0)
+      return orig_fin(self)
+    pe.PhaseExecutorThread._thread_finished = slow_finished
+    try:
+      t.execute()
+    finally:
+      pe.PhaseExecutorThread._thread_finished = orig_fin
     box['rec'] = out[0]
     box['log'] = [(e[0], round(e[1] - t0, 3)) for e in log]
   s = sched.Sched(max_steps=200000)
@@ -110,6 +122,8 @@ def run_row(row):
       bad.append('a body that returned before its deadline got result %s instead of its own %s' % (pr, want))
     if 'td' not in log or 'plug-teardown' not in log:
       bad.append('teardown / plug tearDown missing')
+    elif log['td'] > row['proceedAt'] / 2.0 + 0.5:
+      bad.append('the executor proceeded later than a bounded delay after the body returned / the deadline')
   return bad
 
 
